@@ -740,6 +740,49 @@ def doc_examples(chk):
         sys.modules.pop(name, None)
 
 
+def core_shadow_every_name(chk):
+    """`defining a macro that shadows a core macro warns unless the pragma disables it`, for EVERY core macro (the history
+    enumeration uses `when` only, whose name mangling leaves alone): (defmacro NAME ...) at module level, in a function and in
+    a class body, with the option on and off.  Exhaustive over builtins._hy_macros."""
+    import types
+    bad_on, bad_off, n, skipped = [], [], 0, set()
+    for key in sorted(builtins._hy_macros):
+        name = hy.unmangle(key)
+        try:
+            hy.models.Symbol(name)
+            if "." in name:
+                continue
+        except Exception:  # noqa: BLE001
+            continue
+        for scope, wrap in (("module", "(do {})"), ("function", "(defn hv-f [] {} None)"), ("class", "(defclass HvK [] {})")):
+            for option in (True, False):
+                body = ("" if option else "(pragma :warn-on-core-shadow False) ") + f"(defmacro {name} [] 1)"
+                src = wrap.format(body)
+                mod = types.ModuleType("hv_c35_shadow")
+                n += 1
+                with warnings.catch_warnings(record=True) as w:
+                    warnings.simplefilter("always")
+                    try:
+                        hy.eval(hy.read_many(src), module=mod, locals=mod.__dict__)
+                    except Exception as e:  # noqa: BLE001
+                        # e.g. a macro named `fn` breaks the expansion of the very defmacro that defines it: no claim
+                        skipped.add(name)
+                        continue
+                msgs = [str(x.message) for x in w if issubclass(x.category, RuntimeWarning) and "shadow the core macro" in str(x.message)]
+                if option and len(msgs) != 1:
+                    bad_on.append((name, scope, msgs))
+                if not option and msgs:
+                    bad_off.append((name, scope, msgs))
+    chk.evaluations += n
+    chk.extra["core names whose redefinition itself fails (no claim)"] = sorted(skipped)
+    chk.ob("warn/every core macro name: (defmacro NAME ...) emits exactly one shadow warning (module, function and class scope)",
+           not bad_on and len(skipped) <= 4, "rtc", "exhaustive_finite", detail=f"{n} definitions" if not bad_on else f"{len(bad_on)} wrong; first: {bad_on[0]}",
+           replay={"confirmed": True, "input": f"(defmacro {bad_on[0][0]} [] 1) at {bad_on[0][1]} level", "observed": str(bad_on[0][2]), "expected": "one RuntimeWarning"} if bad_on else None)
+    chk.ob("warn/every core macro name: no shadow warning after (pragma :warn-on-core-shadow False)",
+           not bad_off, "rtc", "exhaustive_finite", detail=f"{n} definitions" if not bad_off else f"{len(bad_off)} wrong; first: {bad_off[0]}",
+           replay={"confirmed": True, "input": f"(pragma :warn-on-core-shadow False) (defmacro {bad_off[0][0]} [] 1) at {bad_off[0][1]} level", "observed": str(bad_off[0][2]), "expected": "no warning"} if bad_off else None)
+
+
 # ------------------------------------------------------------------------------------------------------------------
 def run(chk):
     global CORE
@@ -757,6 +800,7 @@ def run(chk):
               "the specification function as the reading of docs/macros.rst (macro namespaces), docs/api.rst (require, export, "
               "pragma, hy.eval)")
     CORE = frozenset(builtins._hy_macros)
+    core_shadow_every_name(chk)
     os.makedirs("/root/scratch", exist_ok=True)
     scratch = tempfile.mkdtemp(prefix="c35_", dir="/root/scratch")
     sys.path.insert(0, scratch)
